@@ -236,6 +236,10 @@ func genC20(t *rapid.T) *C20Case {
 	}, LeafExtra: func(t *rapid.T) (V, bool) {
 		// strings that a pre-processing pass might expand or strip: references to environment variables
 		// (the harness sets VERIF_NL to a three-line value), comment openers
+		if oneIn(t, 60, "longline") {
+			// one physical line longer than the buffers file readers use (4 KiB, 64 KiB)
+			return VStr(strings.Repeat("x", []int{4095, 4097, 6000, 20000, 65537}[drawIdx(t, 5, "linelen")])), true
+		}
 		if oneIn(t, 12, "expandable") {
 			return VStr([]string{"${VERIF_NL}", "$VERIF_NL", "a // b", "/* x", "${HOME}", "%VERIF_NL%", "caf\u00e9", "\u00ff\u00fe", "na\u00efve\n\u00e9"}[drawIdx(t, 9, "xs")]), true
 		}
@@ -315,6 +319,9 @@ func genC20(t *rapid.T) *C20Case {
 		// brackets that do not open the root: those of the other container kind, and closing ones
 		// things a tolerant pre-pass might strip or expand, newlines included
 		parts = append(parts, "/* licence\n text\n*/", "// note\n", "<!--\n-->\n", "#!shebang\n", "$VERIF_NL", "/*\n\n*/\n")
+		if oneIn(t, 10, "longprefix") {
+			parts = append(parts, strings.Repeat(" ", 5000)+"\n", strings.Repeat("-", 70000)+"\n")
+		}
 		if root.K == KList {
 			parts = append(parts, "{", "${VAR}\n", "${VERIF_NL}", "}", "]", "{\"k\":1}\n")
 		} else {
@@ -456,6 +463,6 @@ func checkC20Doc(c *C20Case, st *Stats, fileTag ...string) error {
 
 func init() {
 	Register("C20",
-		"a generated tree is rendered with drawn whitespace/newlines at every token boundary (LF, CRLF, blank lines, occasionally a raw newline inside a string), optional text with newlines before the root (multi-line block comments, line comments, references to a multi-line environment variable, any bracket but the one that opens the root, e.g. an '[INFO]' log prefix before an object) (occasionally 255-1000 blank lines, now and then 65535-131072), bare CR and CR LF layouts, and exactly one injected syntax error of a kind whose message cites a line (invalid literal in a list / as an object value, detected at its terminating delimiter; bad character where a key must start; bad character after a key; bad character after a nested container in an object), at a drawn nesting depth; the generator records the byte offset of the detecting character. Oracle: if the error text says 'on line N' (the last such phrase counts) then N == 1 + number of newline bytes before that offset; via ParseList, ParseObject and ParseFile; one document in six is re-encoded to Latin-1 bytes (ill-formed UTF-8: usually rejected without a line, but if a line is cited it must be the right one). Non-trivial = at least one newline before the error and the error inside a nested container, or newlines in text before the root bracket. Distinct = distinct FNV-64a hash of the case JSON.",
+		"a generated tree is rendered with drawn whitespace/newlines at every token boundary (LF, CRLF, blank lines, occasionally a raw newline inside a string, now and then a string or a prefix line of 4095-70000 bytes), optional text with newlines before the root (multi-line block comments, line comments, references to a multi-line environment variable, any bracket but the one that opens the root, e.g. an '[INFO]' log prefix before an object) (occasionally 255-1000 blank lines, now and then 65535-131072), bare CR and CR LF layouts, and exactly one injected syntax error of a kind whose message cites a line (invalid literal in a list / as an object value, detected at its terminating delimiter; bad character where a key must start; bad character after a key; bad character after a nested container in an object), at a drawn nesting depth; the generator records the byte offset of the detecting character. Oracle: if the error text says 'on line N' (the last such phrase counts) then N == 1 + number of newline bytes before that offset; via ParseList, ParseObject and ParseFile; one document in six is re-encoded to Latin-1 bytes (ill-formed UTF-8: usually rejected without a line, but if a line is cited it must be the right one). Non-trivial = at least one newline before the error and the error inside a nested container, or newlines in text before the root bracket. Distinct = distinct FNV-64a hash of the case JSON.",
 		GenC20, CheckC20)
 }
